@@ -371,7 +371,30 @@ fn digits(rng: &mut Rng, n: usize) -> String {
     (0..n).map(|_| char::from(b'0' + rng.below(10) as u8)).collect()
 }
 
+fn letters(rng: &mut Rng, n: usize, upper: bool) -> String {
+    (0..n).map(|_| { let c = b'a' + rng.below(26) as u8; if upper { (c as char).to_ascii_uppercase() } else { c as char } }).collect()
+}
+
+/// Secrets made of letters only, in a text without any digit, '@' or '_' (a masker must not take the
+/// absence of those characters for the absence of PII).
+fn rand_letters_only_pii(rng: &mut Rng) -> String {
+    let mut s = String::new();
+    for _ in 0..rng.usize(1, 4) {
+        let frag = match rng.below(6) {
+            0 => format!("{}{}", rng.pick(&["apikey=", "api-key: ", "APIKEY:", "api-key=\""]), { let n = rng.usize(20, 36); letters(rng, n, false) }),
+            1 => format!("AKIA{}", letters(rng, 16, true)),
+            2 => format!("{}.{}.{}", { let n = rng.usize(40, 60); letters(rng, n, false) }, { let n = rng.usize(6, 12); letters(rng, n, false) }, { let n = rng.usize(6, 12); letters(rng, n, true) }),
+            3 => format!("ghp-{}", letters(rng, 12, false)),
+            _ => rng.pick(&["hello", "the quick fox", "my key is", "token follows", "€"]).to_string(),
+        };
+        s.push_str(&frag);
+        s.push_str(rng.pick(&[" ", ", ", "\n", ": "]));
+    }
+    s
+}
+
 pub fn rand_pii_text(rng: &mut Rng) -> String {
+    if rng.chance(1, 6) { return rand_letters_only_pii(rng); }
     let mut s = String::new();
     for _ in 0..rng.usize(0, 8) {
         let sep = rng.pick(&["-", " ", ".", "", "/"]);
